@@ -21,7 +21,7 @@ for d in seeded/*/; do
 import json,sys,subprocess
 p,applied,res=sys.argv[1:4]
 m=json.load(open(p))
-m['final_on_head']={"head":subprocess.check_output(['git','-C','/repo','log','--format=%h','-1']).decode().strip(),"patch_applies":applied=="true","check_results":[l.split(' replay=')[0]+(" no-failing-input-found" if "no-failing-input-found" in l else "") for l in res.splitlines()]}
+m['final_on_head'+(('_'+__import__('os').environ['RESEED_TAG']) if __import__('os').environ.get('RESEED_TAG') else '')]={"head":subprocess.check_output(['git','-C','/repo','log','--format=%h','-1']).decode().strip(),"patch_applies":applied=="true","check_results":[l.split(' replay=')[0]+(" no-failing-input-found" if "no-failing-input-found" in l else "") for l in res.splitlines()]}
 json.dump(m,open(p,'w'),indent=1)
 PY
   echo "$id: $res" | tr '\n' ' '; echo
